@@ -6,11 +6,19 @@ value and the sample stream; at the end VARZ_DATA and VarzAggregator.Aggregate
 must agree with it."""
 PROPS = ('C18',)
 RACE_PROBES = ('equal_sources_many_objects', 'gauge_a_b_a', 'reservoir_overflow', 'interleaved_writers',
+               'series_older_than_max_agg_age_still_recorded',
                'aggregate_while_writing', 'metric_first_seen_during_aggregate')
 SHRINK_KEYS = ('ops',)
 
 
 def generate(rng, tier='quick', **kw):
+  if rng.random() < 0.06:
+    # a long-lived, busy series: the reservoir fills, then samples keep
+    # arriving for longer than the aggregator's staleness limit (5 minutes)
+    return {'world': 'w_varz', 'sources': [{'method': 'm1', 'service': 'svcA', 'endpoint': None, 'client_id': None}],
+            'objs': [0], 'ops': [],
+            'aging': {'fill': rng.choice([1001, 1100, 1500]), 'secs': rng.choice([305, 320, 400]),
+                      'per_sec': rng.choice([3, 5]), 'fresh_objects': rng.random() < 0.5}}
   n_src = rng.randint(1, 4)
   sources = []
   for i in range(n_src):
@@ -141,6 +149,25 @@ def run(scn):
       gevent.sleep(0)
   gs = [gevent.spawn(worker, g) for g in range(4)]
   gevent.joinall(gs)
+  ag = scn.get('aging')
+  if ag:
+    import random as _random
+    vr = _random.Random('aging/%s' % scn['seed'])
+    kk = key(0)
+    recorded = model['lat'].setdefault(kk, [])
+
+    def sample():
+      v = round(0.001 + 0.5 * vr.random(), 6)
+      o = mk(0) if ag['fresh_objects'] else objs[0]
+      o.lat(v)
+      recorded.append(v)
+    for _ in range(ag['fill']):
+      sample()
+    for _ in range(ag['secs']):
+      gevent.sleep(1.0)
+      for _ in range(ag['per_sec']):
+        sample()
+    REC.probe('series_older_than_max_agg_age_still_recorded')
 
   data = VarzReceiver.VARZ_DATA
   for name in ('count', 'count2', 'count3', 'rate', 'gauge', 'lat'):
